@@ -83,7 +83,7 @@ pub fn mode_arg(m: &Mode) -> String {
     }
 }
 
-pub const MS: [u64; 4] = [1, 2, 4, u64::MAX];
+pub const MS: [u64; 5] = [1, 2, 4, 10, u64::MAX];
 
 /// Run all modes for one program. `desc` describes the program for witnesses/samples, `replay`
 /// are the worker arguments that regenerate this very program.
